@@ -10,6 +10,7 @@ package c11
 import (
 	"encoding/json"
 	"fmt"
+	"os"
 	"strconv"
 	"strings"
 
@@ -204,5 +205,149 @@ func enumAbsentMembers(yield func(MutCase) bool) {
 		if !walk(b, tree, envRoot, "") {
 			return
 		}
+	}
+}
+
+// ---------------------------------------------------------------------------
+// documents of every published type: most types have no example of their own,
+// yet any registered type can be the document of an envelope
+
+// StandaloneCase is a document built from the published schema of its type.
+type StandaloneCase struct {
+	Type string          `json:"type"` // short schema id
+	What string          `json:"what"`
+	Doc  json.RawMessage `json:"doc"`
+}
+
+// document-level instances for types whose rules go beyond their schema
+var docSamples = map[string]string{
+	"org/party":              `{"name":"Provide One S.L.","tax_id":{"country":"ES","code":"B98602642"}}`,
+	"org/item":               `{"name":"Item","price":"10.00"}`,
+	"org/person":             `{"name":{"given":"Ana"}}`,
+	"org/name":               `{"given":"Ana"}`,
+	"org/address":            `{"locality":"Madrid","country":"ES"}`,
+	"org/identity":           `{"code":"ABC123"}`,
+	"org/note":               `{"text":"a note"}`,
+	"note/message":           `{"content":"a message"}`,
+	"org/image":              `{"url":"https://example.com/logo.png"}`,
+	"org/registration":       `{"label":"Registro"}`,
+	"tax/identity":           `{"country":"ES","code":"B98602642"}`,
+	"pay/terms":              `{"key":"instant"}`,
+	"pay/instructions":       `{"key":"credit-transfer"}`,
+	"pay/advance":            `{"description":"deposit","amount":"10.00"}`,
+	"bill/line":              `{"quantity":"1","item":{"name":"Item","price":"10.00"}}`,
+	"bill/discount":          `{"amount":"1.00"}`,
+	"bill/charge":            `{"amount":"1.00"}`,
+	"cal/period":             `{"start":"2024-01-01","end":"2024-01-31"}`,
+	"currency/exchange-rate": `{"from":"USD","to":"EUR","amount":"0.9"}`,
+	"org/document-ref":       `{"code":"INV-1"}`,
+	"head/stamp":             `{"prv":"abc","val":"x"}`,
+	"dsig/digest":            `{"alg":"sha256","val":"00"}`,
+}
+
+func enumStandalone(yield func(StandaloneCase) bool) {
+	s := pubschema.MustLoad()
+	cfg := vh.Cfg()
+	idx := 0
+	emit := func(short, what string, doc map[string]any) bool {
+		idx++
+		if idx%cfg.Shards != cfg.Shard {
+			return true
+		}
+		d := map[string]any{}
+		for k, v := range doc {
+			d[k] = v
+		}
+		d["$schema"] = pubschema.FullID(short)
+		raw, err := json.Marshal(d)
+		if err != nil {
+			return true
+		}
+		return yield(StandaloneCase{Type: short, What: what, Doc: raw})
+	}
+	for _, id := range s.IDs {
+		short := pubschema.ShortID(id)
+		root, ok := s.Root(id)
+		if !ok || s.Kind(root) != "object" || short == "envelope" || short == "schema/object" {
+			continue
+		}
+		base, _ := s.Sample(root, 0).(map[string]any)
+		if tmpl, ok := docSamples[short]; ok {
+			var v map[string]any
+			if json.Unmarshal([]byte(tmpl), &v) == nil {
+				base = v
+			}
+		} else if tmpl, ok := typeSamples[short]; ok {
+			var v map[string]any
+			if json.Unmarshal([]byte(tmpl), &v) == nil {
+				base = v
+			}
+		}
+		if base == nil {
+			base = map[string]any{}
+		}
+		if !emit(short, "sample", base) {
+			return
+		}
+		names, nodes := s.Props(root)
+		for _, name := range names {
+			if _, has := base[name]; has || strings.HasPrefix(name, "$") {
+				continue
+			}
+			target, wrap := nodes[name], func(x any) any { return x }
+			if s.Kind(target) == "array" {
+				if it, ok := s.Items(target); ok {
+					target, wrap = it, func(x any) any { return []any{x} }
+				}
+			}
+			v := s.Sample(target, 0)
+			if tmpl, ok := typeSamples[s.TypeID(target)]; ok {
+				var tv any
+				if json.Unmarshal([]byte(tmpl), &tv) == nil {
+					v = tv
+				}
+			}
+			inst := map[string]any{}
+			for k, x := range base {
+				inst[k] = x
+			}
+			inst[name] = wrap(v)
+			if !emit(short, "with:"+name, inst) {
+				return
+			}
+		}
+		var paths []scalarPath
+		constrainedScalars(s, root, 2, nil, &paths)
+		for _, sp := range paths {
+			inst, ok := withPath(s, root, base, sp.path, badValue).(map[string]any)
+			if !ok {
+				continue
+			}
+			if !emit(short, "bad:"+strings.Join(sp.path, "/"), inst) {
+				return
+			}
+		}
+	}
+}
+
+func judgeStandalone(c StandaloneCase, o *vh.Obs) {
+	kind, _, _ := strings.Cut(c.What, ":")
+	_, out, why := validEnvelope(c.Doc, false)
+	if why != "" {
+		if os.Getenv("C11_DEBUG_WHY") != "" {
+			fmt.Fprintf(os.Stderr, "C11-DEBUG standalone %s %s rejected: %s\n", c.Type, c.What, why)
+		}
+		o.Discard()
+		return
+	}
+	o.Class("kept")
+	o.Class("kept-" + kind)
+	o.Class("doc:" + c.Type)
+	o.NonTrivial()
+	rej := schemaRejections(out)
+	what := fmt.Sprintf("a %s document (%s)", c.Type, c.What)
+	report(o, what, rej)
+	if len(rej) == 0 {
+		o.Note("%s: accepted by the library and by the published schemas", what)
 	}
 }
